@@ -35,10 +35,18 @@ theorem tstep_mem {gate} {s s' : TState} {e : Ev} (h : tstep P gate s e = some s
     · rename_i i _
       split at h
       · cases hk : i.kind <;> simp only [hk] at h
+        · split at h <;> cases h <;> exact Or.inl rfl
         · cases h; exact Or.inl rfl
-        · cases h; exact Or.inl rfl
-        · split at h <;> (obtain ⟨st, ib, _, rfl⟩ := advance_eq _ _ _ h; exact Or.inl rfl)
-        · split at h <;> (obtain ⟨st, ib, _, rfl⟩ := advance_eq _ _ _ h; exact Or.inl rfl)
+        · split at h
+          · split at h
+            · cases h
+            · obtain ⟨st, ib, _, rfl⟩ := advance_eq _ _ _ h; exact Or.inl rfl
+          · obtain ⟨st, ib, _, rfl⟩ := advance_eq _ _ _ h; exact Or.inl rfl
+        · split at h
+          · split at h
+            · cases h
+            · obtain ⟨st, ib, _, rfl⟩ := advance_eq _ _ _ h; exact Or.inl rfl
+          · obtain ⟨st, ib, _, rfl⟩ := advance_eq _ _ _ h; exact Or.inl rfl
         · obtain ⟨st, ib, _, rfl⟩ := advance_eq _ _ _ h; exact Or.inl rfl
         · cases h
         · cases h
@@ -51,7 +59,9 @@ theorem tstep_mem {gate} {s s' : TState} {e : Ev} (h : tstep P gate s e = some s
     · rename_i i _
       cases hk : i.kind <;> simp only [hk] at h
       · split at h
-        · obtain ⟨st, ib, _, rfl⟩ := advance_eq _ _ _ h; exact Or.inl rfl
+        · split at h
+          · obtain ⟨st, ib, _, rfl⟩ := setReady_eq _ _ h; exact Or.inl rfl
+          · obtain ⟨st, ib, _, rfl⟩ := advance_eq _ _ _ h; exact Or.inl rfl
         · cases h
       · split at h <;> cases h; exact Or.inl rfl
       · cases h
